@@ -183,10 +183,11 @@ fn worker_body(prop: &'static dyn Prop, args: WorkerArgs) {
       let art = v.get("artifact").cloned().unwrap_or(v.clone());
       write_inflight(&inflight, &json!({"kind": "probe", "file": rel, "signature": fd.signature, "artifact": art}));
       let o = checked(prop, &art);
-      let reproduced = o.failures.iter().any(|f| f.sig == fd.signature);
+      let reproduced = o.failures.iter().any(|f| f.sig == fd.signature || fd.also.contains(&f.sig));
       stats.probes.push(json!({"signature": fd.signature, "what": fd.what, "reproduced": reproduced,
         "observed": o.failures.iter().map(|f| f.sig.clone()).collect::<Vec<_>>()}));
-      for fl in unknown_failures(&o, &known) {
+      let known_for_probe = findings::open_sigs_incl_probe_only(&all, prop.id());
+      for fl in unknown_failures(&o, &known_for_probe) {
         stats.failures.push(json!({"sig": fl.sig, "detail": fl.detail, "artifact": art, "origin": format!("probe:{rel}")}));
       }
     }
@@ -212,7 +213,7 @@ fn worker_body(prop: &'static dyn Prop, args: WorkerArgs) {
   let config = Config {
     cases: args.cases.min(u32::MAX as u64) as u32,
     failure_persistence: None,
-    max_shrink_iters: 4000,
+    max_shrink_iters: params.shrink_iters,
     max_shrink_time: 0,
     verbose: 0,
     max_global_rejects: u32::MAX,
